@@ -755,6 +755,11 @@ def check(program, rep):
     rep.floor("C06-R3", 6)
     rep.floor("C06-R4", 8)
     rep.floor("C06-R5", 20)
+    # arguments handed to package functions under the wrong name / same-
+    # named optional parameters not passed on (NAMELINK, DESIGN.md 9.13)
+    from .. import namelink as _nl
+    rep.guard("C06-R7", _nl.rule, program, rep, "C06-R7",
+              [m for m in sorted(program.modules) if m.startswith("rig.machine_control")])
     return finish(rep, program, EXPLANATION, NOT_DECIDED,
                   trusted=["SC&MP return-code table RC_WIRE / RC_RETRY in "
                            "rules/C06.py (transcribed from sark.h)"])
